@@ -107,8 +107,8 @@ def _r1(ctx):
         st = c
         while not isinstance(st, ast.stmt):
             st = pm[id(st)]
-        if fn == "sub":
-            ctx.ok(R, fi, c, "substitution (not a validation)", nontrivial=False)
+        if fn in ("sub", "split"):
+            ctx.ok(R, fi, c, "substitution / split (consumes nothing: what it leaves is validated by the residue and separator guards, C23-R4)", nontrivial=False)
             continue
         ctx.require(pat is not None, R, f"{fi.fq}: cannot fold the pattern of `{norm(c)[:80]}`")
         if fn == "fullmatch":
@@ -257,13 +257,66 @@ def _r3(ctx):
     ctx.floor(R, 9)
 
 
+def _r4(ctx):
+    R = "C23-R4"
+    ctx.doc(R, "projection entries: every store of a rank (explicit `Rank: expr` and shorthand `m` alike) is preceded by a duplicate test that raises, the explicit expression is tested for emptiness, "
+               "and the text between / around the tensor accesses of the right-hand side is validated (an operator between two accesses, nothing before the first or after the last)")
+    fi = ctx.func(WL, "_parse_projection", R)
+    cfg = ctx.cfg(fi)
+    stores = [st for st in fi.stmts() for t, v, _ in assigned_targets(st) if isinstance(t, ast.Subscript) and norm(t.value) == "result"]
+    ctx.require(len(stores) >= 2, R, f"stores into the projection dict: {len(stores)}")
+    guards = [g for g in fi.stmts() if isinstance(g, ast.If) and isinstance(g.test, ast.Compare) and len(g.test.ops) == 1 and isinstance(g.test.ops[0], ast.In)
+              and norm(g.test.comparators[0]) == "result" and g.body and isinstance(g.body[-1], ast.Raise)]
+    for st in stores:
+        key = norm(st.targets[0].slice)
+        sn = cfg.node_of(st)
+        ok = any(norm(g.test.left) == key and cfg.node_of(g) is not None and cfg.dominates(cfg.node_of(g), sn) for g in guards)
+        ctx.check(ok, R, fi, st, f"`{norm(st)}` overwrites an entry for the same rank without complaint (no `{key} in result` test that raises on this path): `X[M:p, m]` is accepted and silently means `X[m]`, "
+                  "while the same two entries in the other order are rejected", f"duplicate rank `{key}` rejected before the store")
+    # explicit branch: empty expression rejected
+    expl = [st for st in stores if isinstance(st.value, ast.Name)]
+    for st in expl:
+        v = st.value.id
+        sn = cfg.node_of(st)
+        empt = [g for g in fi.stmts() if isinstance(g, ast.If) and g.body and isinstance(g.body[-1], ast.Raise) and v in {x.id for x in ast.walk(g.test) if isinstance(x, ast.Name)}
+                and (isinstance(g.test, ast.UnaryOp) and isinstance(g.test.op, ast.Not) or (isinstance(g.test, ast.Compare) and any(isinstance(c_, ast.Constant) and c_.value in ("", 0) for c_ in g.test.comparators)))
+                and cfg.node_of(g) is not None and cfg.dominates(cfg.node_of(g), sn)]
+        if norm(st.targets[0].slice) == v or f"{v}.upper()" == norm(st.targets[0].slice):
+            continue  # shorthand: the value is the (non-empty, validated) entry itself
+        ctx.check(bool(empt), R, fi, st, f"an explicit entry with an empty expression (`X[M:]`) is stored as `{norm(st)}` without complaint", f"empty expression `{v}` rejected")
+    # right-hand side: separators validated
+    ps = ctx.func(WL, "_parse_einsum_string", R)
+    pcfg = ctx.cfg(ps)
+    seps = []
+    for st in ps.stmts():
+        for t, v, _ in assigned_targets(st):
+            if isinstance(t, ast.Name) and isinstance(v, ast.Call) and call_name(v) in ("split", "fullmatch") and isinstance(v.func, ast.Attribute) and norm(v.func.value) == "re" and any(norm(a) == "rhs" for a in v.args):
+                seps.append((t.id, st))
+    direct = [g for g in ps.stmts() if isinstance(g, ast.If) and g.body and isinstance(g.body[-1], ast.Raise) and "fullmatch" in norm(g.test) and "rhs" in norm(g.test)]
+    ok = bool(direct)
+    for name, st in seps:
+        ok = ok or any(isinstance(g, ast.If) and g.body and isinstance(g.body[-1], ast.Raise) and name in {x.id for x in ast.walk(g.test) if isinstance(x, ast.Name)} for g in ps.stmts())
+    ctx.check(ok, R, ps, seps[0][1] if seps else ps.node, "nothing checks the text between the tensor accesses of the right-hand side: `I[b]W[m]` (no operator) and `* A[m]` (dangling operator) are accepted", "separators between accesses validated")
+    ctx.floor(R, 3)
+
+
 def check(ctx):
     _r1(ctx)
     _r2(ctx)
     _r3(ctx)
+    _r4(ctx)
 
 
 VARIANTS = [
+    {"kind": "F", "name": "shorthand-entry-overwrites-silently", "rule": "C23-R4", "edits": [(WL, """            if part.upper() in result:
+                raise ValueError(
+                    f"Duplicate rank entry: {part.upper()}. Must be unique. {s}"
+                )
+            result[part.upper()] = part""", """            result[part.upper()] = part""")]},
+    {"kind": "F", "name": "empty-expression-accepted", "rule": "C23-R4", "edits": [(WL, """            if not v.strip():
+                raise ValueError(f"Empty projection expression for rank {k}. {s}")
+""", "")]},
+    {"kind": "F", "name": "separators-unchecked", "rule": "C23-R4", "edits": [(WL, "    if gaps[0] or gaps[-1] or not all(gaps[1:-1]):", "    if False:")]},
     {"kind": "F", "name": "remove-residue-check", "rule": "C23-R1", "edits": [
         (WL, '''    residue = re.sub(tensor_pattern, "", rhs)
     if re.search(r"[\\w\\[\\]]", residue):
